@@ -365,9 +365,8 @@ def check(ctx):
         for st, env in ctx.sites(rep, f"{r_f}.set_exception($X)"):
             ok = getattr(env["X"], "id", "") == r_exc
             ctx.ob("R14-d", rep, "the exception set is the reported exception", ok, node=st, detail="" if ok else f"`{norm(st)}`", by=(r_exc,))
-            ctx.require_at("R14-d", rep, block_head(st), [[f"not {r_f}.cancelled()"]], instance="no outcome is set on a cancelled future (abandoned call)", what="block of set_exception")
-            head = block_head(st)
-            ctx.require_at("R14-d", rep, head, [[f"not {r_exc} is None"]], instance="an exception is delivered only when the function raised", what="block of set_exception")
+            ctx.require_at("R14-d", rep, st, [[f"not {r_f}.cancelled()"]], instance="no outcome is set on a cancelled future (abandoned call)", what="set_exception")
+            ctx.require_at("R14-d", rep, st, [[f"not {r_exc} is None"]], instance="an exception is delivered only when the function raised", what="set_exception")
         # the exception variable is only rebound for StopIteration (which cannot be set on a future)
         reb = [s for s, _ in ctx.sites(rep, f"{r_exc} = $X")]
         for s in reb:
@@ -436,7 +435,8 @@ def loop_entry_points(ctx, RULE):
     ctx.ob(RULE, tw, "the task returns the coroutine function's own result", len(s1) == 1, detail="" if s1 else "task_wrapper does not `return await func(*args)`", by=("return await func(*args)",))
     s2 = ctx.sites(raf, "$F = $C.run(asyncio.run_coroutine_threadsafe, task_wrapper(), loop=$L)")
     s3 = ctx.sites(raf, "return $F.result()")
-    ok = len(s2) == 1 and len(s3) == 1 and u(s2[0][1]["F"]) == u(s3[0][1]["F"])
+    s4 = ctx.sites(raf, "return $C.run(asyncio.run_coroutine_threadsafe, task_wrapper(), loop=$L).result()")      # (canonical form: temporary folded)
+    ok = (len(s2) == 1 and len(s3) == 1 and u(s2[0][1]["F"]) == u(s3[0][1]["F"])) or (len(s4) == 1 and not s2)
     ctx.ob(RULE, raf, "from_thread.run returns the outcome of the task it scheduled", ok, detail="" if ok else "the returned future is not the one of run_coroutine_threadsafe(task_wrapper())", by=("f.result()",))
     sc = ctx.sites(raf, "$S = getattr(threadlocals, 'current_cancel_scope', None)")
     ctx.ob(RULE, raf, "the coroutine joins the scope published for the calling thread", len(sc) == 1, detail="" if sc else "the thread's cancel scope is not picked up", by=("threadlocals.current_cancel_scope",))
